@@ -7,7 +7,7 @@ Property theorems about `XlModel.FormulaRef` (transcription of adjust.go's
 references (all 16384 columns, all rows, every `$` combination), all edits and
 all token lists.
 -/
-import XlModel.Lemmas.FormulaRef9
+import XlModel.Lemmas.FormulaRef10
 
 namespace XlModel.Props.C07
 open XlModel XlModel.Ref XlModel.FormulaRef
@@ -1025,6 +1025,111 @@ theorem aggregate_invariant_under_delete {N : Type} [Calc.NumOps N] (fn : Calc.I
     (fun p hp => by rw [hd p hp]; rfl)
   refine ⟨c1', r1', c2', r2', he, ?_⟩
   rw [← aggregate_filter fn (List.map g' _), ← aggregate_filter fn (List.map g _), hv]
+
+/-- the enumeration the range theorems speak about is the one calc.go's `rangeResolver` uses (tied by
+the transcript op `cells`: `TEXTJOIN` over the real evaluator): for a normalised range `Spec.refCells`
+is `cellsOf` of its corners, and a reversed range enumerates the same cells -/
+theorem refCells_range (c1 c2 : Spec.ColEnd) (r1 r2 : Spec.RowEnd) (hc : c1.n ≤ c2.n) (hr : r1.n ≤ r2.n) :
+    Spec.refCells (.range c1 r1 c2 r2) = cellsOf c1.n r1.n c2.n r2.n ∧
+    Spec.refCells (.range c2 r2 c1 r1) = cellsOf c1.n r1.n c2.n r2.n := by
+  simp [Spec.refCells, Nat.min_eq_left hc, Nat.min_eq_left hr, Nat.max_eq_right hc, Nat.max_eq_right hr,
+    Nat.min_eq_right hc, Nat.min_eq_right hr, Nat.max_eq_left hc, Nat.max_eq_left hr]
+
+/-- **impl_aggregate_invariant_under_insert** — `aggregate_invariant_under_insert` for the
+transcription of calc.go's own aggregates (`Calc.Impl.aggregate`, the code C08 ties to the real
+SUM/AVERAGE/COUNT/COUNTA/MAX/MIN/PRODUCT): they skip empty cells, SUM under `x + 0 = x`. -/
+theorem impl_aggregate_invariant_under_insert {N : Type} [Calc.NumOps N] (fn : Calc.Impl.AggFn)
+    (hz : fn = .sum → ∀ s : N, Calc.NumOps.add s Calc.NumOps.zero = s)
+    (dir : Dir) (num n : Nat) (c1 c2 : Spec.ColEnd) (r1 r2 : Spec.RowEnd)
+    (hc : c1.n ≤ c2.n) (hr : r1.n ≤ r2.n) (g g' : Nat × Nat → Calc.Impl.CellArg N)
+    (hg : ∀ p p', Spec.shiftPos ⟨dir, num, n⟩ p = some p' → g' p' = g p)
+    (hb : ∀ p', (∀ p, Spec.shiftPos ⟨dir, num, n⟩ p ≠ some p') → g' p' = .empty) :
+    ∃ c1' r1' c2' r2', Spec.shiftRef false ⟨dir, num, n⟩ (.range c1 r1 c2 r2) = some (.range c1' r1' c2' r2') ∧
+      Calc.Impl.aggregate fn ((cellsOf c1'.n r1'.n c2'.n r2'.n).map g') =
+        Calc.Impl.aggregate fn ((cellsOf c1.n r1.n c2.n r2.n).map g) := by
+  obtain ⟨c1', r1', c2', r2', hs, hv⟩ := range_values_insert nonEmptyB dir num n c1 c2 r1 r2 hc hr g g' hg
+    (fun p' hp => by rw [hb p' hp]; rfl)
+  refine ⟨c1', r1', c2', r2', hs, ?_⟩
+  rw [← impl_aggregate_filter fn (List.map g' _) hz, ← impl_aggregate_filter fn (List.map g _) hz, hv]
+
+/-- **impl_aggregate_invariant_under_delete** -/
+theorem impl_aggregate_invariant_under_delete {N : Type} [Calc.NumOps N] (fn : Calc.Impl.AggFn)
+    (hz : fn = .sum → ∀ s : N, Calc.NumOps.add s Calc.NumOps.zero = s)
+    (dir : Dir) (num n : Nat) (c1 c2 : Spec.ColEnd) (r1 r2 : Spec.RowEnd)
+    (hc : c1.n ≤ c2.n) (hr : r1.n ≤ r2.n) (g g' : Nat × Nat → Calc.Impl.CellArg N) (r' : Spec.Ref)
+    (hs : Spec.shiftRef false ⟨dir, num, -(n : Int)⟩ (.range c1 r1 c2 r2) = some r')
+    (hg : ∀ p p', Spec.shiftPos ⟨dir, num, -(n : Int)⟩ p = some p' → g' p' = g p)
+    (hd : ∀ p, Spec.shiftPos ⟨dir, num, -(n : Int)⟩ p = none → g p = .empty) :
+    ∃ c1' r1' c2' r2', r' = .range c1' r1' c2' r2' ∧
+      Calc.Impl.aggregate fn ((cellsOf c1'.n r1'.n c2'.n r2'.n).map g') =
+        Calc.Impl.aggregate fn ((cellsOf c1.n r1.n c2.n r2.n).map g) := by
+  obtain ⟨c1', r1', c2', r2', he, hv⟩ := range_values_delete nonEmptyB dir num n c1 c2 r1 r2 hc hr g g' r' hs hg
+    (fun p hp => by rw [hd p hp]; rfl)
+  refine ⟨c1', r1', c2', r2', he, ?_⟩
+  rw [← impl_aggregate_filter fn (List.map g' _) hz, ← impl_aggregate_filter fn (List.map g _) hz, hv]
+
+/-! ## Shared formulas: the text a cell of a shared range stands for -/
+
+/-- a relative coordinate translated by the cell's offset from the master cell -/
+def tr (n : Nat) (d : Int) : Nat := ((n : Int) + d).toNat
+
+/-- **shared_cell_translated** — `shiftCell` (used by `getSharedFormula` and, since the repair, by
+`expandSharedFormulas` before every structural edit; tied by the transcript op `shf`): in the text
+derived for the cell at offset `(dCol,dRow)` from the master cell, a relative cell reference of the
+master is translated by that offset … -/
+theorem shared_cell_translated (c r : Nat) (dCol dRow : Int)
+    (hc1 : 1 ≤ c) (hc2 : c ≤ Facts.MaxColumns) (hr1 : 1 ≤ r) (hr2 : r ≤ Facts.TotalRows)
+    (hc1' : 1 ≤ (c : Int) + dCol) (hc2' : (c : Int) + dCol ≤ Facts.MaxColumns)
+    (hr1' : 1 ≤ (r : Int) + dRow) (hr2' : (r : Int) + dRow ≤ Facts.TotalRows) :
+    Impl.shiftCell dCol dRow (Spec.render (.cell ⟨false, c⟩ ⟨false, r⟩)) =
+      Spec.render (.cell ⟨false, tr c dCol⟩ ⟨false, tr r dRow⟩) := by
+  unfold Impl.shiftCell
+  have hnc := cellText_noColon ⟨false, c⟩ ⟨false, r⟩
+  have e : Spec.render (.cell ⟨false, c⟩ ⟨false, r⟩) = Spec.renderCol ⟨false, c⟩ ++ Spec.renderRow ⟨false, r⟩ := rfl
+  rw [e, splitColon_none _ hnc]
+  simp only [List.map_cons, List.map_nil, Impl.joinColon]
+  exact shiftPart_relative c r dCol dRow hc1 hc2 hr1 hr2 hc1' hc2' hr1' hr2'
+
+/-- … an absolute one is kept … -/
+theorem shared_cell_absolute_kept (c r : Nat) (dCol dRow : Int)
+    (hc1 : 1 ≤ c) (hc2 : c ≤ Facts.MaxColumns) (hr1 : 1 ≤ r) (hr2 : r ≤ Facts.TotalRows) :
+    Impl.shiftCell dCol dRow (Spec.render (.cell ⟨true, c⟩ ⟨true, r⟩)) = Spec.render (.cell ⟨true, c⟩ ⟨true, r⟩) := by
+  unfold Impl.shiftCell
+  have hnc := cellText_noColon ⟨true, c⟩ ⟨true, r⟩
+  have e : Spec.render (.cell ⟨true, c⟩ ⟨true, r⟩) = Spec.renderCol ⟨true, c⟩ ++ Spec.renderRow ⟨true, r⟩ := rfl
+  rw [e, splitColon_none _ hnc]
+  simp only [List.map_cons, List.map_nil, Impl.joinColon]
+  exact shiftPart_absolute c r dCol dRow hc1 hc2 hr1 hr2
+
+/-- … and a relative range is translated corner by corner, so the cell at offset `(dCol,dRow)` refers
+to the master's range moved by exactly that offset: it denotes `p + (dCol,dRow)` iff the master's
+range denotes `p`. -/
+theorem shared_range_translated (c1 r1 c2 r2 : Nat) (dCol dRow : Int)
+    (h1 : 1 ≤ c1 ∧ c1 ≤ Facts.MaxColumns ∧ 1 ≤ r1 ∧ r1 ≤ Facts.TotalRows)
+    (h2 : 1 ≤ c2 ∧ c2 ≤ Facts.MaxColumns ∧ 1 ≤ r2 ∧ r2 ≤ Facts.TotalRows)
+    (h1' : 1 ≤ (c1 : Int) + dCol ∧ (c1 : Int) + dCol ≤ Facts.MaxColumns ∧ 1 ≤ (r1 : Int) + dRow ∧ (r1 : Int) + dRow ≤ Facts.TotalRows)
+    (h2' : 1 ≤ (c2 : Int) + dCol ∧ (c2 : Int) + dCol ≤ Facts.MaxColumns ∧ 1 ≤ (r2 : Int) + dRow ∧ (r2 : Int) + dRow ≤ Facts.TotalRows) :
+    Impl.shiftCell dCol dRow (Spec.render (.range ⟨false, c1⟩ ⟨false, r1⟩ ⟨false, c2⟩ ⟨false, r2⟩)) =
+      Spec.render (.range ⟨false, tr c1 dCol⟩ ⟨false, tr r1 dRow⟩ ⟨false, tr c2 dCol⟩ ⟨false, tr r2 dRow⟩) ∧
+    ∀ p : Nat × Nat, 0 ≤ (p.1 : Int) + dCol → 0 ≤ (p.2 : Int) + dRow →
+      (Spec.denote (.range ⟨false, tr c1 dCol⟩ ⟨false, tr r1 dRow⟩ ⟨false, tr c2 dCol⟩ ⟨false, tr r2 dRow⟩)
+          (tr p.1 dCol, tr p.2 dRow) ↔
+        Spec.denote (.range ⟨false, c1⟩ ⟨false, r1⟩ ⟨false, c2⟩ ⟨false, r2⟩) p) := by
+  constructor
+  · unfold Impl.shiftCell
+    have e : Spec.render (.range ⟨false, c1⟩ ⟨false, r1⟩ ⟨false, c2⟩ ⟨false, r2⟩) =
+        (Spec.renderCol ⟨false, c1⟩ ++ Spec.renderRow ⟨false, r1⟩) ++ ':' :: (Spec.renderCol ⟨false, c2⟩ ++ Spec.renderRow ⟨false, r2⟩) := by
+      simp [Spec.render]
+    rw [e, splitColon_one _ _ (cellText_noColon _ _) (cellText_noColon _ _)]
+    simp only [List.map_cons, List.map_nil, Impl.joinColon]
+    have a := shiftPart_relative c1 r1 dCol dRow h1.1 h1.2.1 h1.2.2.1 h1.2.2.2 h1'.1 h1'.2.1 h1'.2.2.1 h1'.2.2.2
+    have b := shiftPart_relative c2 r2 dCol dRow h2.1 h2.2.1 h2.2.2.1 h2.2.2.2 h2'.1 h2'.2.1 h2'.2.2.1 h2'.2.2.2
+    simp only [Spec.render] at a b
+    rw [a, b]
+    simp [Spec.render, tr]
+  · intro p hp1 hp2
+    simp only [Spec.denote, tr, Nat.min_def, Nat.max_def]
+    split <;> split <;> split <;> split <;> omega
 
 /-! ## Where the current code does not satisfy the full statement -/
 
